@@ -31,7 +31,7 @@ R9 = Fraction(1, 10**9)
 # helpers
 # ----------------------------------------------------------------------------------------------------------------------
 
-PROP_MODULES = ['C20', 'C20Gen', 'C20GenFns', 'C20GenFns2']
+PROP_MODULES = ['C20', 'C20Gen', 'C20GenFns', 'C20GenFns2', 'C20DirRule']
 
 def fmean(l):
     return sum(l, Fraction(0)) / len(l)
@@ -824,3 +824,15 @@ def run(ctx):
 
 # evidence: how the model is tied to the source on every run (as built, supersedes the value above)
 TIE = 'translator (design tables -> Gen/DesignSpectra, roll/step/interp functions -> Gen/GenericFns, Gen/GenericFns2; Props/C20Gen, C20GenFns, C20GenFns2) + correspondence'
+
+
+# ---- round-7 deliveries (lw_small / tw_single3): further correspondences of models with new theorems -------------------------
+import _lw_small as _LW  # noqa: E402
+from _single3_corr import corr_single3  # noqa: E402
+_run_main_r7 = run
+
+
+def run(ctx):
+    _run_main_r7(ctx)
+    _LW.corr_step_dir(ctx)
+    ctx.flush()
